@@ -50,6 +50,13 @@ def check_case(case):
             raise Violation('digest-%s%s' % (base, '-acp' if ht & 0x80 else ''),
                             'BIP143 digest differs for ht=0x%02x idx=%d (%d in/%d out) amount=%d locktime=%d: lib %s ref %s' % (
                                 ht, idx, len(m['vin']), len(m['vout']), amount, m['locktime'], r[1].hex(), want.hex()))
+    # the script code held as plain bytes / bytearray / memoryview: the digest commits to the BYTES, whatever holds them
+    ht0 = case.get('amount', 0) % 256
+    want0 = RS.bip143(sc, m, idx, ht0, amount)
+    for kind, v in libx.spellings(sc):
+        r = libx.call('bip143-script-as-' + kind, SignatureHash, v, tx, idx, ht0, amount=amount, sigversion=SIGVERSION_WITNESS_V0)
+        if r[1] != want0:
+            raise Violation('digest-script-as-' + kind, 'BIP143 digest differs when the %d-byte script code is passed as %s' % (len(sc), kind))
     if tx.serialize() != before or (tx.GetTxid(), tx.GetHash()) != ids:
         raise Violation('mutated/tx', 'BIP143 hashing changed the transaction it was given')
     if case['mutable'] is True:
@@ -86,6 +93,13 @@ def check_case(case):
 @st.composite
 def s_case(draw):
     t = draw(gen.tx_model(max_in=5, max_out=5, big=False))
+    if draw(st.integers(0, 5)) == 0:
+        # an input and / or an output repeated VERBATIM
+        j = draw(st.integers(0, len(t['vin']) - 1))
+        t['vin'].insert(draw(st.integers(0, len(t['vin']))), list(t['vin'][j]))
+        if t['vout']:
+            t['vout'].insert(draw(st.integers(0, len(t['vout']))), list(t['vout'][draw(st.integers(0, len(t['vout']) - 1))]))
+        t['wit'] = None
     n = draw(st.sampled_from([0, 1, 25, 25, 35, 252, 253, 300, 22, 23, 34, 71, 251, 254, 255, 256, 257, 520, 521, 0xfffe, 0xffff, 0x10000, 0x10001]))
     sc = draw(st.binary(min_size=n, max_size=n)) if n <= 35 else (draw(st.binary(min_size=4, max_size=4)) * (n // 4 + 1))[:n]
     if draw(st.integers(0, 3)) == 0:
@@ -104,6 +118,16 @@ def s_case(draw):
 
 def t_main(ctx):
     ctx.hyp(s_case(), ctx.n(150, 2500))
+    # transactions with hundreds of inputs / outputs and the signed index beyond 255, 256, 257 (one hash type of each kind)
+    if ctx.shard < 4:
+        nin = [258, 300, 257, 1000][ctx.shard]
+        t = {'version': 2, 'vin': [[bytes([i % 256, i // 256] + [9] * 30).hex(), i, '', 0xffffffff - i] for i in range(nin)],
+             'vout': [[i, '51'] for i in range(nin - 1)], 'wit': None, 'locktime': 7}
+        for idx in sorted(i_ for i_ in {0, 255, 256, 257, nin - 2, nin - 1} if i_ < nin):
+            ctx.run({'tx': t, 'script': '76a914' + '11' * 20 + '88ac', 'idx': idx, 'amount': 12345 + idx, 'mutable': bool(idx % 2),
+                     'hts': [1, 2, 3, 0x81, 0x82, 0x83, 0]})
+        if ctx.shard == 0:
+            ctx.exhaustive.append('transactions with 257 / 258 / 300 / 1000 inputs, signed index in {0, 255, 256, 257, last-1, last}')
     if ctx.shard == 0:
         ctx.exhaustive.append('all 256 hash-type bytes for every generated (transaction, script code, index, amount) case')
 
